@@ -7,7 +7,7 @@ E1 `tree`     secp256k1: seeds x networks x every parent path over the boundary 
 E1 `paths`    secp256k1: every path x every notation (m/M prefix x ' h H mixed markers):
               traverse(string) == fold of child() == reference; public traverse likewise / refused.
 E1 `codec`    nodes (derived and synthetic boundary fields) x all 20 SLIP-132 prefixes: parse/serialise
-              exact, constructor direction, raw_parse(network=...), stale-memo probe.
+              exact, constructor direction, raw_parse(network=...), stale-memo probe, children of parsed keys.
 E1 `blind`    blind_xpub(start xpub, start path, secret path) == reference key at the combined path
               from the root, start depths 0..4 x secret paths of depth 1..4 x notations x prefixes.
 E3 `toyN`     toy instantiation of pecc.py: every parent secret x chain codes x index alphabet.
@@ -64,10 +64,6 @@ def styles_of(path):
 
 
 # ---------------------------------------------------------------- observation of buidl objects
-PRIV_FIELDS = ["k", "c", "depth", "pfp", "num", "fp", "sec", "xprv", "xpub"]
-PUB_FIELDS = ["c", "depth", "pfp", "num", "fp", "sec", "xpub"]
-
-
 def obs_pub(o):
     if isinstance(o, Rejected):
         return o
@@ -436,6 +432,14 @@ def run_codec(case):
                 res.violation(f"C08/codec/network-class/{vname}", vc, netw, cls, "parsed key is attributed to the wrong network class")
             else:
                 res.ok("network-class")
+            if case["kind"] == "der":  # "for every ... extended key": derive from the parsed key (key material only, no strings)
+                for i in (HARD - 1, HARD):
+                    rc = R.ckd_priv(node, i)
+                    oc = obs_priv(attempt(o.child, i))
+                    w = ref_priv(rc, v, defpub)
+                    for d_ in (oc if isinstance(oc, dict) else {}, w):
+                        d_["xprv"] = d_["xpub"] = None
+                    check(res, f"C08/codec/child-of-parsed/prv/{idx_name(i)}", vc, oc, w, "child of a parsed extended private key differs from the reference", "child-of-parsed==ref", ("cop", nm, vname, i))
         else:
             o = attempt(HDPublicKey.parse, x)
             if isinstance(o, Rejected):
@@ -459,6 +463,18 @@ def run_codec(case):
                 res.violation(f"C08/codec/raw_serialize/{vname}", vc, [r1, r2], node.payload(defpub, False), "raw_serialize() is not the 78-byte default-version serialisation or changes between calls")
             else:
                 res.ok("xpub/raw stable across calls")
+            if case["kind"] == "der":
+                rc = R.ckd_pub(node.neuter(), HARD - 1)
+                oc = obs_pub(attempt(o.child, HARD - 1))
+                w = ref_pub(rc, v)
+                for d_ in (oc if isinstance(oc, dict) else {}, w):
+                    d_["xpub"] = None
+                check(res, "C08/codec/child-of-parsed/pub/2^31-1", vc, oc, w, "child of a parsed extended public key differs from the reference", "child-of-parsed==ref", ("cop", nm, vname))
+                hc = attempt(o.child, HARD)
+                if isinstance(hc, Rejected) or hc is None:
+                    res.ok("hardened-from-parsed-public-refused", ("coph", nm, vname))
+                else:
+                    res.violation("C08/codec/pub-hardened-accepted", vc, str(obs_pub(hc))[:200], "refusal", "hardened child derived from a parsed extended public key")
             netw = attempt(lambda: o.network)
             if (netw == "mainnet") != (cls == "main"):
                 res.violation(f"C08/codec/network-class/{vname}", vc, netw, cls, "parsed key is attributed to the wrong network class")
@@ -727,7 +743,7 @@ def engines(tier, seed):
             rule="nodes = one base key with every single boundary deviation of secret (1, n-1, leading zero bytes), chain code (00.., ff.., leading zeros), depth (0,1,8,255), "
             "parent fingerprint, child number (6 boundary values) [thorough: every pair of deviations] + keys derived from seeds; each x all 20 SLIP-132 prefixes: "
             "parse(x).xprv()/xpub() == x, parsed fields, network class, explicit-version serialisers, raw_serialize memo, raw_parse(network) for 4 networks, "
-            "constructor with default and SLIP-132 version pairs. Non-trivial = one (node, prefix) round trip",
+            "constructor with default and SLIP-132 version pairs, child derivation (2^31-1, 2^31) from the parsed derived keys. Non-trivial = one (node, prefix) round trip",
         ),
         Engine(
             "blind",
